@@ -5,6 +5,7 @@ is checked on the library's own results.  Every slicing result is observed raw A
 empty text represented by the blank object becomes visible.  Texts, counts and positions are supplied through cells
 and swept through overrides; a sample is also embedded as literals."""
 import itertools
+import json
 
 import datetime as dt
 
@@ -92,7 +93,7 @@ def needles(rng, t):
 
 def _plan(tier, seed):
     return [{'kind': 'slice', 'part': p, 'parts': 8} for p in range(8)] + [{'kind': 'search', 'part': p, 'parts': 6} for p in range(6)] + \
-           [{'kind': 'join'}, {'kind': 'literal'}]
+           [{'kind': 'join'}, {'kind': 'literal'}, {'kind': 'shared-text'}]
 
 
 def nontrivial(case, outs):
@@ -254,14 +255,57 @@ def run_literal(shard, ctx):
     r.sample({'literal_formulas': [cells[a] for _, a in targets[:6]]})
 
 
+def run_shared_text(shard, ctx):
+    """the SAME text used as a SEARCH needle and as a criterion of SUMIF / COUNTIFS / SUMIFS / AVERAGEIFS in one generated class: what SEARCH
+    answers does not depend on whether a criteria function met that text before (and the other way round).  Two class objects are loaded
+    from one translation; one is asked the criteria cells first, the other the SEARCH cells first; every cell must agree."""
+    from excel2pycl import Executor, Cell
+    r, rng = ctx.r, ctx.rng
+    needles = ['an', 'a', 'na', 'b?n', 'a*a', '~*', 'AN', 'x', 'ban', 'ana', '?', '*']
+    for k in range(6 if ctx.tier == 'quick' else 60):
+        n1, n2 = rng.sample(needles, 2)
+        cells = {'A1': 'banana', 'A2': rng.choice(['an', 'bandana', 'x*y', 'AN']), 'A3': n1, 'A4': rng.choice(['', 'a', 'nab']) or 'z', 'B1': n1, 'B2': n2,
+                 'C1': 1, 'C2': 10, 'C3': 100, 'C4': 1000,
+                 'F1': '=SEARCH(B1,A1)', 'F2': '=SEARCH(B1,A1,2)', 'F3': f'=SEARCH("{n1}",A1)', 'F4': '=SEARCH(B2,A2)', 'F5': f'=IFERROR(SEARCH("{n2}",A1,3),-1)',
+                 'G1': '=COUNTIFS(A1:A4,B1)', 'G2': '=SUMIF(A1:A4,B1,C1:C4)', 'G3': f'=SUMIFS(C1:C4,A1:A4,"{n1}")', 'G4': f'=COUNTIFS(A1:A4,"{n2}")',
+                 'G5': '=IFERROR(AVERAGEIFS(C1:C4,A1:A4,B2),-1)'}
+        book = pipeline.Book(wbspec.spec(wbspec.sheet('S', cells)), ctx.workdir, name=f'shared{k}')
+        if book.cls is None or book.whole is None or not book.whole.ok:
+            r.violation('translate', {'spec': 'shared-text'}, book.whole.brief() if book.whole is not None else 'no text', 'a loadable class')
+            continue
+        searchers, criteria = ['F1', 'F2', 'F3', 'F4', 'F5'], ['G1', 'G2', 'G3', 'G4', 'G5']
+        seen = {}
+        for label, order in (('criteria first', criteria + searchers), ('search first', searchers + criteria)):
+            cls_o = pipeline.load_text(book.whole.value)
+            if not cls_o.ok:
+                continue
+            ex = Executor().set_executed_class(class_object=cls_o.value)
+            for a in order:
+                rr, cc = wbspec.rc(a)
+                o = pipeline.guarded(lambda: ex.get_cell(Cell(0, cc - 1, rr - 1)).value, 'evaluate')
+                r.ev()
+                r.count('shared_text_observations')
+                seen.setdefault(a, {})[label] = o
+        for a, d in seen.items():
+            if len(d) == 2:
+                x, y = d['criteria first'], d['search first']
+                r.nt(('shared-text', k, a))
+                if json.dumps(x.brief(), sort_keys=True, default=str) != json.dumps(y.brief(), sort_keys=True, default=str):
+                    report(r, ID, None, {'formula': cells[a], 'cell': a, 'needle_cells': [cells['B1'], cells['B2']], 'shared_text_law': True},
+                           {'asked after the criteria cells': x.brief(), 'asked before them': y.brief()}, 'the same value in both orders', monitor='search-depends-on-earlier-criteria')
+    r.sample({'shared_text': 'SEARCH and criteria functions over the same needle text in one class, asked in both orders on two class objects'})
+
+
 def run_shard(shard, ctx):
     if isinstance(shard, dict) and 'mixed' in shard:
         from ..mixed import run_mixed
         return run_mixed(ctx, ID, shard['n'])
+    if 'replay' in shard and shard['replay'].get('shared_text_law'):
+        return run_shared_text({}, ctx)
     if 'replay' in shard:
         c = shard['replay']
         return replay_case(ctx, ID, c, exact=True, err_exact='SEARCH' in (c.get('formula') or ''), classify=classify, empty_text_is_blank=True)
-    {'slice': run_slice, 'search': run_search, 'join': run_join, 'literal': run_literal}[shard['kind']](shard, ctx)
+    {'slice': run_slice, 'search': run_search, 'join': run_join, 'literal': run_literal, 'shared-text': run_shared_text}[shard['kind']](shard, ctx)
 
 
 def finish(r, tier, seed):
